@@ -53,7 +53,7 @@ RULE = ("dump: per cooler (12 quick / 30 thorough small coolers: symmetric+squar
         "names pass: 14 chromosome-name alphabets (all digits, leading zeros, 1/01/001, digit+letter, float-like, scientific, pandas NA tokens, bool-like, "
         "inf/hex/sign, dots-dashes-underscores, 180-character names, all mixed), each as the only kind in its files: dump / dump --join / -t bins / -t chroms, "
         "dump|load coo and bg2, hand-written bg2 and pairs files, BINS as BED file and as chromsizes:binsize, stored bin and chromosome tables compared as strings in order; "
-        "zoomify -r: 11 spellings (default, B, n, kB, kN, 2kB, 2kn, explicit and mixed lists, spaces, case) on 9 tiny bases (binsize 1, 2, 5) and 7 spellings incl. 4DN on 2 "
+        "zoomify -r: 8 (thorough 11) spellings (default, B, n, kB, kN, 2kB, 2kn, explicit and mixed lists, spaces, case) on 5 boundary + 4 control tiny bases (binsize 1, 2, 5) and up to 7 spellings incl. 4DN on 2 "
         "binsize-1000 bases, genome lengths chosen so that ceil(L/256) is exactly a step of the binary / nice progression, one below, one above, or L a multiple of 256; non-trivial = at least one data row and at least one non-default option / a non-identity column layout; distinct by input hash")
 TRUSTED = ["pandas to_csv / read_csv tokenisation are observed through the CLI, not modelled (the model works on tokenised records and on cells)",
            "click option parsing is observed, not modelled"]
@@ -1931,47 +1931,60 @@ def zoom_levels_oracle(binsize, L, spec):
     return sorted(res)
 
 
-def zoom_run(runner, cli, zdir, case, tag="z"):
-    """(exit status, sorted levels found in the output file or None)"""
+def zoom_base(zdir, case, tag):
     import cooler
     b, sizes = case["binsize"], case["sizes"]
     names = ["a", "b", "c"][: len(sizes)]
     bins = cooler.binnify(pd.Series(sizes, index=names), b)
     n = len(bins)
     px = sorted({(0, 0), (0, n - 1), (n // 2, n // 2), (n // 3, n - 2), (n - 1, n - 1)})
-    base, out = str(zdir / f"{tag}.cool"), str(zdir / f"{tag}.mcool")
-    for pth in (base, out):
-        if os.path.exists(pth):
-            os.remove(pth)
+    base = str(zdir / f"{tag}.cool")
+    if os.path.exists(base):
+        os.remove(base)
     cooler.create_cooler(base, bins, pd.DataFrame({"bin1_id": [p[0] for p in px], "bin2_id": [p[1] for p in px], "count": [k + 1 for k in range(len(px))]}))
+    return base
+
+
+def zoom_run(runner, cli, zdir, case, base):
+    """(exit status, sorted levels found in the output file or None)"""
+    import cooler
+    out = base[:-5] + ".mcool"
+    if os.path.exists(out):
+        os.remove(out)
     args = ["zoomify"] + (["-r", case["spec"]] if case["spec"] is not None else []) + ["-o", out, base]
     code, _ = invoke(runner, cli, args, limit=60)
     try:
         lv = sorted(int(p.split("/")[-1]) for p in cooler.fileops.list_coolers(out))
     except Exception:
         lv = None
-    for pth in (base, out):
-        if os.path.exists(pth):
-            os.remove(pth)
+    if os.path.exists(out):
+        os.remove(out)
     return code, lv
 
 
 def zoom_cases(thorough):
     """bases whose genome length L puts ceil(L / 256) exactly on a step of the binary / nice progression, one below, one above,
     and on a multiple of 256 (floor = ceil); every spelling of the spec on each"""
-    small = [(1, 400), (1, 1100), (1, 1024), (2, 1000), (2, 768), (2, 1030), (2, 2500), (5, 2400), (5, 1000)]
+    exact = [(1, 400), (1, 1100), (2, 1000), (2, 2500), (5, 2400)]            # ceil(L/256) = 2, 5, 4, 10, 10: a step, floor is not
+    control = [(1, 1024), (2, 768), (2, 1030), (5, 1000)]                     # multiple of 256 / one below / one above / below the base
     if thorough:
-        small += [(1, 1000), (1, 1300), (1, 1900), (2, 2304), (2, 2600), (2, 2000), (5, 6200), (5, 6400)]
+        exact += [(1, 1000), (1, 1900), (2, 2000), (5, 6200)]
+        control += [(1, 1300), (2, 2304), (2, 2600), (5, 6400)]
+    small = [(b, L, True) for b, L in exact] + [(b, L, thorough) for b, L in control]
     big = [2_559_900, 2_560_000] + ([2_561_000, 2_559_000] if thorough else [])
     cases = []
-    for b, L in small:
+    for b, L, full in small:
         sizes = [L // 2 + 3, L - (L // 2 + 3)]
         specs = [None, "B", "n", f"{b}b", f"{b}N", f"{2 * b}B", f" {2 * b}n ", f"{2 * b},{4 * b}", f" {2 * b} , {b}B", f"{b}n,{4 * b}", f"{4 * b}N,{2 * b}b"]
+        if not full:
+            specs = [None, "n", f"{2 * b}B", f"{b}n,{4 * b}"]
+        elif not thorough:
+            specs = [None, "B", "n", f"{b}N", f"{2 * b}B", f" {2 * b}n ", f" {2 * b} , {b}B", f"{b}n,{4 * b}"]
         for sp in specs:
             cases.append({"kind": "zoomify-levels", "binsize": b, "sizes": sizes, "spec": sp})
     for L in big:
         sizes = [L - 1_000_000, 1_000_000]
-        for sp in ["4DN", " 4dn", "N", "1000n", "1000,2000,5000N", "2000B,4Dn", "5000N"]:
+        for sp in (["4DN", " 4dn", "N", "1000n", "1000,2000,5000N", "2000B,4Dn", "5000N"] if thorough or L % 256 else ["4dn", "N"]):
             cases.append({"kind": "zoomify-levels", "binsize": 1000, "sizes": sizes, "spec": sp})
     return cases
 
@@ -1982,10 +1995,14 @@ def run_zoom_specs(ctx, runner, cli, thorough):
     cases = zoom_cases(thorough)
     exprs = [f"expand_spec {C.z(c['binsize'])} (maxres_fixed {C.z(sum(c['sizes']))}) {zoom_spec_items(c['spec'] if c['spec'] is not None else 'b')}" for c in cases]
     model = C.coq_eval("From Cooler Require Import Model.Zoom.", exprs, tmpdir=ctx.tmp / "zoomspecv", shard=200, jobs=2)
+    bases = {}
     for case, mo in zip(cases, model):
         L = sum(case["sizes"])
         ctx.case(case, nontrivial=True, kind="zoomify -r boundary")
-        code, lv = zoom_run(runner, cli, zdir, case)
+        key = (case["binsize"], tuple(case["sizes"]))
+        if key not in bases:
+            bases[key] = zoom_base(zdir, case, f"z{len(bases)}")
+        code, lv = zoom_run(runner, cli, zdir, case, bases[key])
         mlv = sorted(set(mo) | {case["binsize"]})
         ctx.compare("cooler zoomify -r levels", case, lv if code == 0 else str(code), mlv)
         exp = zoom_levels_oracle(case["binsize"], L, case["spec"])
@@ -2064,7 +2081,7 @@ def replay(ctx, case):
             code, ires = impl_cload(runner, cli, cool, case, ctx.tmp, 0)
             return oracle_cload(cool, case, code, ires, ctx.tmp, 0) is None
         if kind == "zoomify-levels":
-            code, lv = zoom_run(runner, cli, ctx.tmp, case, tag="replay")
+            code, lv = zoom_run(runner, cli, ctx.tmp, case, zoom_base(ctx.tmp, case, "replay"))
             return code == 0 and lv == zoom_levels_oracle(case["binsize"], sum(case["sizes"]), case["spec"])
         if kind == "history":        # state between calls: only the whole history reproduces it
             sub = type(ctx)(ctx.prop, ctx.tier, ctx.seed)
